@@ -154,7 +154,12 @@ func signalScenario(id string, seed uint64, point string, nth int, procs [][]in)
 				ev.call = simnet.Tick()
 				switch i.Kind {
 				case opSet:
-					ev.out.OK = sig.Set(&valErr{i.Val})
+					// value 0 stands for Set(nil): a legal value, and the one that is hardest to tell from "not set"
+					var e error
+					if i.Val != 0 {
+						e = &valErr{i.Val}
+					}
+					ev.out.OK = sig.Set(e)
 				case opGet:
 					err, ok := sig.Get()
 					ev.out = outv{OK: ok, Val: valOf(err)}
@@ -691,6 +696,9 @@ func gen(tier string, seed uint64) []runner.Scenario {
 							i.Val = val
 							val++
 							hasSet = true
+							if r.Intn(4) == 0 {
+								i.Val = 0
+							}
 						}
 						procs[p] = append(procs[p], i)
 					}
@@ -739,6 +747,19 @@ func gen(tier string, seed uint64) []runner.Scenario {
 				id := fmt.Sprintf("signal-observer/%s/%d/n%d", pt, k, nobs)
 				s := r.Next()
 				out = append(out, runner.Scenario{ID: id, Run: func() runner.Result { return signalScenario(id, s, pt, 1, procs) }})
+			}
+		}
+	}
+	// directed nil-winner programs: a Set(nil) races Sets of real errors while one of them sits at each
+	// internal step; whoever wins, every later reader sees the winner's value, nil included
+	for _, pt := range signalPoints {
+		for rep := 0; rep < 3; rep++ {
+			for nth := 1; nth <= 2; nth++ {
+				procs := [][]in{{{Kind: opSet, Val: 0}, {Kind: opErr}, {Kind: opGet}}, {{Kind: opSet, Val: 5}, {Kind: opGet}}, {{Kind: opSet, Val: 6}, {Kind: opErr}}, {{Kind: opPoll}, {Kind: opGet}, {Kind: opErr}}}
+				pt, procs, nth := pt, procs, nth
+				id := fmt.Sprintf("signal-nil-winner/%s/%d/nth%d", pt, rep, nth)
+				s := r.Next()
+				out = append(out, runner.Scenario{ID: id, Run: func() runner.Result { return signalScenario(id, s, pt, nth, procs) }})
 			}
 		}
 	}
